@@ -14,6 +14,7 @@ Not decided: values; round-trip identity beyond these facts; agreement across re
 from __future__ import annotations
 
 import ast
+from typing import List
 
 from ..model import Program, dotted
 from ..report import Result
@@ -58,17 +59,61 @@ def check(prog: Program, res: Result, tier: str) -> None:
     # ttensor.permute: same order for core and factors
     fi = prog.func("ttensor.ttensor.permute")
     o = fi.params()[1]
-    core_by = [ast.unparse(c.args[0]) for c in ast.walk(fi.node) if isinstance(c, ast.Call) and isinstance(c.func, ast.Attribute)
+
+    def order_form(e: ast.AST) -> str:
+        """'fwd' when e is the order argument itself (through parse_one_d / np.array / np.asarray / list / tuple), 'inv' when it is its argsort,
+        '?' otherwise."""
+        e = fi.resolve(e)
+        for _ in range(4):
+            if isinstance(e, ast.Call) and (dotted(e.func) or "").split(".")[-1] in ("parse_one_d", "array", "asarray", "list", "tuple", "copy") \
+                    and (e.args or isinstance(e.func, ast.Attribute)):
+                e = e.args[0] if e.args else e.func.value
+                e = fi.resolve(e)
+        if isinstance(e, ast.Name) and e.id == o:
+            return "fwd"
+        if isinstance(e, ast.Call) and (dotted(e.func) or "").split(".")[-1] == "argsort":
+            inner = e.args[0] if e.args else (e.func.value if isinstance(e.func, ast.Attribute) else None)
+            if inner is not None and order_form(inner) == "fwd":
+                return "inv"
+        return "?"
+
+    core_by = [order_form(c.args[0]) for c in ast.walk(fi.node) if isinstance(c, ast.Call) and isinstance(c.func, ast.Attribute)
                and c.func.attr == "permute" and c.args and "core" in ast.unparse(c.func.value)]
-    fac_by = [ast.unparse(g.iter) for n in ast.walk(fi.node) if isinstance(n, ast.ListComp) for g in n.generators
-              if "factor_matrices" in ast.unparse(n.elt)]
+    fac_by: List[str] = []
+    for n in ast.walk(fi.node):
+        # gather by comprehension: [fm[i] for i in E]
+        if isinstance(n, ast.ListComp) and len(n.generators) == 1 and isinstance(n.generators[0].target, ast.Name):
+            v = n.generators[0].target.id
+            for x in ast.walk(n.elt):
+                if isinstance(x, ast.Subscript) and "factor_matrices" in ast.unparse(x.value) and isinstance(x.slice, ast.Name) and x.slice.id == v:
+                    fac_by.append(order_form(n.generators[0].iter))
+        # loops that fill a list slot by slot: gather  L[k] = fm[order[k]] / scatter  L[order[k]] = fm[k]
+        if isinstance(n, ast.For):
+            pos = elem = None
+            it = n.iter
+            if isinstance(it, ast.Call) and (dotted(it.func) or "") == "enumerate" and it.args and isinstance(n.target, ast.Tuple) \
+                    and len(n.target.elts) == 2 and all(isinstance(t, ast.Name) for t in n.target.elts) and order_form(it.args[0]) != "?":
+                pos, elem, form = n.target.elts[0].id, n.target.elts[1].id, order_form(it.args[0])
+            if pos is None:
+                continue
+            for st in ast.walk(n):
+                if isinstance(st, ast.Assign) and len(st.targets) == 1 and isinstance(st.targets[0], ast.Subscript) \
+                        and isinstance(st.targets[0].slice, ast.Name) and isinstance(st.value, ast.Subscript) \
+                        and "factor_matrices" in ast.unparse(st.value.value) and isinstance(st.value.slice, ast.Name):
+                    dst, src = st.targets[0].slice.id, st.value.slice.id
+                    if (dst, src) == (pos, elem):
+                        fac_by.append(form)
+                    elif (dst, src) == (elem, pos):
+                        fac_by.append("inv" if form == "fwd" else "fwd")       # scatter = gather by the inverse
     desc = "core and factor matrices are permuted by the same order"
-    if core_by and fac_by and core_by[0] == fac_by[0] == o:
+    if core_by and fac_by and core_by[0] == fac_by[0] == "fwd":
         res.ok("PS-tt", fi.short, desc, prog.loc(fi), f"both by `{o}`")
-    elif core_by and fac_by:
-        res.bad("PS-tt", fi.short, desc, prog.loc(fi), f"core permuted by `{core_by[0]}`, factors selected by `{fac_by[0]}`")
+    elif core_by and fac_by and "?" not in (core_by[0], fac_by[0]):
+        names = {"fwd": f"`{o}`", "inv": f"the inverse of `{o}`"}
+        res.bad("PS-tt", fi.short, desc, prog.loc(fi), f"core permuted by {names[core_by[0]]}, factors arranged by {names[fac_by[0]]}: "
+                "for a non-involutive order the factors no longer belong to the modes of the core")
     else:
-        res.undecided("PS-tt", fi.short, desc, prog.loc(fi))
+        res.undecided("PS-tt", fi.short, desc, prog.loc(fi), f"core by {core_by[:1]}, factors by {fac_by[:1]}")
     # ktensor.permute: weights unpermuted
     fi = prog.func("ktensor.ktensor.permute")
     desc = "weights are passed through unchanged (only the modes are relabelled)"
